@@ -24,11 +24,22 @@
   `Src.leaf` / `Src.fill` / `Src.pair` it computes provenance, which is what the driver prints and what the harness
   compares with the real sarpy segments.
 
-  Not modelled: ComplexFormatFunction with the band dimension kept or orders MP / PM, LUT format functions, writes
-  through a complex format function, block arrangements with step -1, raw-basis subsets, `read_raw` as an entry point
-  of its own (it is modelled as the node below an `orient`).
+  Extension (SEG2): raw-basis subsets over a parent with the identity format function (`subsetR`), block definitions
+  with step -1 (`Blks.rcons`, served through `flipSlice` since the repair F1 of `_find_slice_overlap`),
+  ComplexFormatFunction with the band dimension kept (`cplxK`; refuses a band step other than +1 and a reversed band
+  axis), the orders MP / PM (`COrd`, the pixel value is the *named* function `Pairing.polar` of the two stored samples),
+  SingleLUTFormatFunction with a 1-d (`lut1`) or 2-d (`lut2`) table (`Pairing.lut`), and writes through the complex
+  format functions (the inverse splits a pixel into its two parts, `Parts.part`).
+  `Seg.accepts t ts` is the set of normalised subscripts the code serves (it raises ValueError on the others);
+  refinement is proved on that set.
 
-  Line numbers refer to sarpy/io/general/data_segment.py (ds) and format_function.py (ff) at /repo commit a516c01.
+  Not modelled: raw-basis subsets whose parent is itself a subset or has a complex / LUT format function,
+  AmpScalingFunction (position dependent scaling), `read_raw` as an entry point of its own (it is modelled as the node
+  below an `orient`).
+
+  Line numbers refer to sarpy/io/general/data_segment.py (ds) and format_function.py (ff) at /repo commit a516c01;
+  those of the SEG2 extension (fmtSub, rawSubK, dblSlice, flipSlice, pairKept, lutMap / lutCols, unpair / unpairK, the new
+  constructors) at /repo commit dcdd97a.
   Import-free apart from the slice kernels.
 -/
 import SarpyModel.Spec.Slice
@@ -91,6 +102,29 @@ def rawSub (rawShape rev inv : List Nat) (ts : List NSlice) : List NSlice :=
   (List.range inv.length).map (fun i =>
     let t := sliceAt ts (inv.getD i 0)
     if i ∈ rev then mirror (dimAt rawShape i) t else t)
+
+/-- `IdentityFunction.transform_raw_slice` (ff:486-505): formatted axis `j` gets the raw slice at `perm[j]`,
+    mirrored when that raw axis is reversed (`shape_limit = formatted_shape[j] = raw_shape[perm[j]]`) -/
+def fmtSub (rawShape rev perm : List Nat) (rs : List NSlice) : List NSlice :=
+  (List.range perm.length).map (fun j =>
+    let t := sliceAt rs (perm.getD j 0)
+    if perm.getD j 0 ∈ rev then mirror (dimAt rawShape (perm.getD j 0)) t else t)
+
+/-- a slice with start and stop doubled (`2*temp_sl.start`, `2*temp_sl.stop`, ff:723-736) -/
+def dblSlice (t : NSlice) : NSlice := ⟨2 * t.start, t.stop.map (2 * ·), t.step⟩
+
+/-- `ComplexFormatFunction.transform_formatted_slice` with the band dimension kept (ff:698-736): as `rawSub`, and the
+    entry of the raw axis that carries the band dimension `bd` (after the possible mirror, which the code takes with
+    the raw, doubled, axis length) has start and stop doubled -/
+def rawSubK (rawShape rev inv : List Nat) (bd : Nat) (ts : List NSlice) : List NSlice :=
+  (List.range inv.length).map (fun i =>
+    let t := sliceAt ts (inv.getD i 0)
+    let m := if i ∈ rev then mirror (dimAt rawShape i) t else t
+    if inv.getD i 0 = bd then dblSlice m else m)
+
+/-- the subscript with entry `bd` doubled -/
+def dblAt (bd : Nat) (ts : List NSlice) : List NSlice :=
+  (List.range ts.length).map (fun j => if j = bd then dblSlice (sliceAt ts j) else sliceAt ts j)
 
 def insAt {β : Type} (k : Nat) (x : β) (l : List β) : List β := l.take k ++ x :: l.drop k
 def delAt {β : Type} (k : Nat) (l : List β) : List β := l.take k ++ l.drop (k + 1)
@@ -165,11 +199,71 @@ def sliceBox (ps : List NSlice) : List (Int × Int) := ps.map (fun p => (p.start
 def Arr.paste {α : Type} (out : Arr α) (box : List (Int × Int)) (d : Arr α) : Arr α :=
   ⟨out.shape, fun idx => if inBox box idx then d.get (boxLo box idx) else out.get idx⟩
 
+/-- position inside a block whose definition runs backwards (`slice(hi-1, lo-1, -1)`) on the axes flagged in `rv` -/
+def boxLoR (box : List (Int × Int)) (rv : List Bool) (idx : Idx) : Idx :=
+  fun i => if rv.getD i false then (box.getD i (0, 0)).2 - 1 - idx i else idx i - (box.getD i (0, 0)).1
+
+/-- `out[entry] = d` where `entry` has step -1 on the axes flagged in `rv` (numpy basic assignment) -/
+def Arr.pasteR {α : Type} (out : Arr α) (box : List (Int × Int)) (rv : List Bool) (d : Arr α) : Arr α :=
+  ⟨out.shape, fun idx => if inBox box idx then d.get (boxLoR box rv idx) else out.get idx⟩
+
+/-- `_find_slice_overlap(slice_in, ref_slice)` with `ref_slice.step < 0` (ds:140-153, as repaired by
+    F1_block_reversed_definition): `c` is the overlap relative to the interval the definition covers (length `len`) and
+    `p` the positions in the output, both as for a forward definition; the child is addressed backwards: position `r` of
+    the interval is child index `len - 1 - r`, visited in the same order, so the step changes sign -/
+def flipSlice (len : Int) (c p : NSlice) : NSlice :=
+  let st := len - 1 - c.start
+  let stp := -c.step
+  let e := st + (p.stop.getD 0 - p.start) * stp
+  ⟨st, (if stp > 0 then some (min e len) else if e < 0 then none else some e), stp⟩
+
+/-- the per-axis loop of `BlockAggregateSegment.read_raw` (ds:1876-1890) for a block definition that runs backwards on the
+    axes flagged in `rv` -/
+def overlapsR : List NSlice → List (Int × Int) → List Bool → Option (List NSlice × List NSlice)
+  | t :: ts, b :: bs, r :: rs =>
+    match overlap t b.1 b.2 with
+    | none => none
+    | some (c, p) =>
+      match overlapsR ts bs rs with
+      | none => none
+      | some (cs, ps) => some ((if r then flipSlice (b.2 - b.1) c p else c) :: cs, p :: ps)
+  | _, _, _ => some ([], [])
+
 /-! ### complex samples -/
 
-/-- what it takes to form a complex sample from two stored samples: `pair re im` -/
+/-- what it takes to form a formatted sample from stored samples: `pair re im` (orders IQ / QI),
+    `polar magnitude phase` (orders MP / PM, `_forward_magnitude_theta`, also AmpLookupFunction),
+    `lut c x` (entry `c` of row `x` of a lookup table).  The functions are names: the index theorems do not look
+    inside them (their numerics are property C08's business). -/
 class Pairing (α : Type) where
   pair : α → α → α
+  polar : α → α → α
+  lut : Nat → α → α
+
+/-- the four orders of `ComplexFormatFunction` (ff:530) -/
+inductive COrd where
+  | IQ | QI | MP | PM
+deriving DecidableEq, Repr, Inhabited
+
+/-- the formatted sample from the stored samples at the even (`a0`) and the odd (`a1`) band position
+    (`_forward_functional_step`, ff:799-820) -/
+def comb {α : Type} [Pairing α] : COrd → α → α → α
+  | .IQ, a0, a1 => Pairing.pair a0 a1
+  | .QI, a0, a1 => Pairing.pair a1 a0
+  | .MP, a0, a1 => Pairing.polar a0 a1
+  | .PM, a0, a1 => Pairing.polar a1 a0
+
+/-- what the inverse of a complex format function stores: `part 0` real, `part 1` imaginary, `part 2` magnitude,
+    `part 3` phase of a formatted sample (names again) -/
+class Parts (α : Type) where
+  part : Nat → α → α
+
+/-- which part goes to the even / odd band position (`_reverse_functional_step`, ff:879-889, `_reverse_magnitude_theta`) -/
+def COrd.slot : COrd → Bool → Nat
+  | .IQ, false => 0 | .IQ, true => 1
+  | .QI, false => 1 | .QI, true => 0
+  | .MP, false => 2 | .MP, true => 3
+  | .PM, false => 3 | .PM, true => 2
 
 /-- the index tuple with `k` inserted at axis `bd` -/
 def insAx (bd : Nat) (k : Int) (idx : Idx) : Idx :=
@@ -177,10 +271,27 @@ def insAx (bd : Nat) (k : Int) (idx : Idx) : Idx :=
 
 /-- `ComplexFormatFunction._forward_functional_step` for orders IQ / QI with the band axis `bd` (length 2) collapsed
     (ff:779-810): `out.real = data.take([0], axis=bd)`, `out.imag = data.take([1], axis=bd)` for IQ, swapped for QI -/
-def Arr.pairUp {α : Type} [Pairing α] (iq : Bool) (bd : Nat) (a : Arr α) : Arr α :=
+def Arr.pairUp {α : Type} [Pairing α] (ord : COrd) (bd : Nat) (a : Arr α) : Arr α :=
   ⟨a.shape.take bd ++ a.shape.drop (bd + 1),
-   fun idx => if iq then Pairing.pair (a.get (insAx bd 0 idx)) (a.get (insAx bd 1 idx))
-              else Pairing.pair (a.get (insAx bd 1 idx)) (a.get (insAx bd 0 idx))⟩
+   fun idx => comb ord (a.get (insAx bd 0 idx)) (a.get (insAx bd 1 idx))⟩
+
+/-- the shape with axis `bd` halved (`after_mapping_shape`, ff:657-659) -/
+def halveAt (bd : Nat) (shape : List Nat) : List Nat :=
+  (List.range shape.length).map (fun i => if i = bd then dimAt shape i / 2 else dimAt shape i)
+
+/-- the index tuple with entry `bd` replaced by `2 * idx bd + s` -/
+def dblAx (bd : Nat) (s : Int) (idx : Idx) : Idx := fun i => if i = bd then 2 * idx i + s else idx i
+
+/-- the same step with the band dimension kept (ff:793-820): formatted band `k` is made of raw bands `2k`, `2k+1` -/
+def Arr.pairKept {α : Type} [Pairing α] (ord : COrd) (bd : Nat) (a : Arr α) : Arr α :=
+  ⟨halveAt bd a.shape, fun idx => comb ord (a.get (dblAx bd 0 idx)) (a.get (dblAx bd 1 idx))⟩
+
+/-- elementwise application of a table column (`lookup_table[temp]`, ff:1022) -/
+def Arr.lutMap {α : Type} [Pairing α] (a : Arr α) : Arr α := ⟨a.shape, fun idx => Pairing.lut 0 (a.get idx)⟩
+
+/-- 2-d table with `m` columns: a new last axis (ff:1023-1027) -/
+def Arr.lutCols {α : Type} [Pairing α] (m : Nat) (a : Arr α) : Arr α :=
+  ⟨a.shape ++ [m], fun idx => Pairing.lut (idx a.shape.length).toNat (a.get idx)⟩
 
 /-! ### equality of arrays -/
 
@@ -196,6 +307,11 @@ def Arr.Equiv {α : Type} (a b : Arr α) : Prop :=
 def Arr.Local {α : Type} (a : Arr α) : Prop :=
   ∀ idx idx' : Idx, (∀ i, i < a.shape.length → idx i = idx' i) → a.get idx = a.get idx'
 
+def allSlicesNormal : List Nat → List NSlice → Bool
+  | [], [] => true
+  | n :: ns, t :: ts => decide (t.Normal n) && allSlicesNormal ns ts
+  | _, _ => false
+
 /-! ### segment trees -/
 
 mutual
@@ -209,11 +325,20 @@ inductive Seg where
       below (a leaf for the array segments, the parent's formatted data for a `ReorientationSegment`,
       the stack / mosaic for the aggregates) -/
   | orient (rev perm : List Nat) (p : Seg)
-  /-- `DataSegment.read` with a `ComplexFormatFunction(order = IQ | QI, band_dimension = bd)` whose band axis (length 2,
+  /-- `DataSegment.read` with a `ComplexFormatFunction(order, band_dimension = bd)` whose band axis (length 2,
       position `bd` after the transpose) is collapsed: formatted = pairs(transpose(flip(raw))) -/
-  | cplx (iq : Bool) (rev perm : List Nat) (bd : Nat) (p : Seg)
+  | cplx (ord : COrd) (rev perm : List Nat) (bd : Nat) (p : Seg)
+  /-- the same with the band dimension kept (raw_ndim = formatted_ndim): axis `bd` is halved -/
+  | cplxK (ord : COrd) (rev perm : List Nat) (bd : Nat) (p : Seg)
+  /-- `SingleLUTFormatFunction` with a one-dimensional table -/
+  | lut1 (rev perm : List Nat) (p : Seg)
+  /-- `SingleLUTFormatFunction` with a two-dimensional table of `m` columns (a new last axis of length `m`) -/
+  | lut2 (m : Nat) (rev perm : List Nat) (p : Seg)
   /-- `SubsetSegment(parent, defs, 'formatted', squeeze=sq)` -/
   | subset (sq : Bool) (defs : List NSlice) (p : Seg)
+  /-- `SubsetSegment(parent, rdefs, 'raw', squeeze=sq)` where the parent has the identity format function with
+      `reverse_axes = rev`, `transpose_axes = perm` over the raw data `p` -/
+  | subsetR (sq : Bool) (rdefs : List NSlice) (rev perm : List Nat) (p : Seg)
   /-- raw data of a `BandAggregateSegment`: children stacked along axis `bd` -/
   | bands (bd : Nat) (cs : Segs)
   /-- raw data of a `BlockAggregateSegment`: children pasted at `arr` into a canvas of `shape` filled with the
@@ -225,6 +350,9 @@ inductive Segs where
 inductive Blks where
   | nil
   | cons (arr : List (Int × Int)) (c : Seg) (rest : Blks)
+  /-- a block whose definition has step -1 on the axes flagged in `rv`: entry `slice(b1-1, b0-1, -1)` for the box `[b0, b1)`
+      (served since the repair F1_block_reversed_definition; before it every subscript reaching such a block was refused) -/
+  | rcons (arr : List (Int × Int)) (rv : List Bool) (c : Seg) (rest : Blks)
 end
 
 def Segs.length : Segs → Nat
@@ -238,7 +366,12 @@ def Seg.fshape : Seg → List Nat
   | .fleaf _ s => s
   | .orient _ perm p => gather perm p.fshape                      -- ff:448-463 (formatted[i] = raw[trans[i]])
   | .cplx _ _ perm bd p => delAt bd (gather perm p.fshape)         -- ff:644-686
+  | .cplxK _ _ perm bd p => halveAt bd (gather perm p.fshape)      -- ff:657-668
+  | .lut1 _ perm p => gather perm p.fshape                         -- ff:944-959
+  | .lut2 m _ perm p => gather perm p.fshape ++ [m]
   | .subset sq defs _ => pick (keepAxes sq defs) (defs.map NSlice.count)     -- ds:1151-1158
+  | .subsetR sq rdefs rev perm p =>
+    pick (keepAxes sq (fmtSub p.fshape rev perm rdefs)) ((fmtSub p.fshape rev perm rdefs).map NSlice.count)
   | .bands bd cs => insAt bd cs.length cs.headShape               -- ds:1587-1591
   | .blocks s _ => s
 def Segs.headShape : Segs → List Nat
@@ -255,8 +388,16 @@ def Seg.full : Seg → Arr α
   | .leaf id s => ⟨s, fun idx => L id ((List.range s.length).map idx)⟩
   | .fleaf id s => ⟨s, fun idx => L id ((List.range s.length).map idx)⟩
   | .orient rev perm p => ((p.full).flip rev).transpose perm (invPerm perm)
-  | .cplx iq rev perm bd p => (((p.full).flip rev).transpose perm (invPerm perm)).pairUp iq bd
+  | .cplx ord rev perm bd p => (((p.full).flip rev).transpose perm (invPerm perm)).pairUp ord bd
+  | .cplxK ord rev perm bd p => (((p.full).flip rev).transpose perm (invPerm perm)).pairKept ord bd
+  | .lut1 rev perm p => (((p.full).flip rev).transpose perm (invPerm perm)).lutMap
+  | .lut2 m rev perm p => (((p.full).flip rev).transpose perm (invPerm perm)).lutCols m
   | .subset sq defs p => ((p.full).select defs).squeeze (keepAxes sq defs)
+  -- the formatted view of the parent, cut by the formatted form of the raw definition; `C01Seg.subsetR_full_raw`
+  -- proves that this is the orientation of the raw selection `raw[rdefs]`
+  | .subsetR sq rdefs rev perm p =>
+    ((((p.full).flip rev).transpose perm (invPerm perm)).select (fmtSub p.fshape rev perm rdefs)).squeeze
+      (keepAxes sq (fmtSub p.fshape rev perm rdefs))
   | .bands bd cs =>
     ⟨insAt bd cs.length cs.headShape, fun idx => (cs.fullNth (idx bd).toNat).get (dropAx bd idx)⟩   -- numpy.stack
   | .blocks s cs => cs.fullOnto (Arr.const s F)
@@ -269,10 +410,11 @@ def Segs.fullNth : Segs → Nat → Arr α
 def Blks.fullOnto : Blks → Arr α → Arr α
   | .nil, acc => acc
   | .cons arr c r, acc => r.fullOnto (acc.paste arr c.full)
+  | .rcons arr rv c r, acc => r.fullOnto (acc.pasteR arr rv c.full)
 end
 
 mutual
-/-- **operation**: what the code computes for the normalised subscript `ts` -/
+/-- **operation**: what the code computes for the normalised subscript `ts` (meaningful when `Seg.accepts t ts`) -/
 def Seg.read : Seg → List NSlice → Arr α
   -- NumpyArraySegment.read_raw: `self._underlying_array[subscript]` (ds:2084-2098) - numpy itself
   | .leaf id s, ts => (Arr.mk s (fun idx => L id ((List.range s.length).map idx))).select ts
@@ -293,12 +435,30 @@ def Seg.read : Seg → List NSlice → Arr α
     ((p.read (rawSub p.fshape rev (invPerm perm) ts)).flip rev).transpose perm (invPerm perm)
   -- the same with ComplexFormatFunction.transform_formatted_slice (ff:688-738, collapsed branch: the subscript is padded
   --   with slice(0, 2, 1) at the band dimension, then treated as the identity function does) and the pairing step
-  | .cplx iq rev perm bd p, ts =>
+  | .cplx ord rev perm bd p, ts =>
     (((p.read (rawSub p.fshape rev (invPerm perm) (insAt bd ⟨0, some 2, 1⟩ ts))).flip rev).transpose perm
-      (invPerm perm)).pairUp iq bd
+      (invPerm perm)).pairUp ord bd
+  -- band dimension kept (ff:698-736 and 793-820)
+  | .cplxK ord rev perm bd p, ts =>
+    (((p.read (rawSubK p.fshape rev (invPerm perm) bd ts)).flip rev).transpose perm (invPerm perm)).pairKept ord bd
+  -- SingleLUTFormatFunction (ff:961-981, 1008-1046)
+  | .lut1 rev perm p, ts =>
+    (((p.read (rawSub p.fshape rev (invPerm perm) ts)).flip rev).transpose perm (invPerm perm)).lutMap
+  -- 2-d table: the last entry of the subscript is ignored by transform_formatted_slice and applied to the new axis
+  --   afterwards (`array.take(arange(m)[subscript[-1]], axis=-1)`, ff:1036-1042)
+  | .lut2 _ rev perm p, ts =>
+    let o := ((p.read (rawSub p.fshape rev (invPerm perm) ts)).flip rev).transpose perm (invPerm perm)
+    ⟨ts.map NSlice.count,
+     fun idx => Pairing.lut (selIdx ts idx perm.length).toNat (o.get idx)⟩
   -- SubsetSegment.read (ds:1308-1328): parent.read(get_parent_formatted_subscript(ts), squeeze=False), reshaped
   | .subset sq defs p, ts =>
     (p.read (composeSq p.fshape defs (keepAxes sq defs) ts)).squeeze (keepAxes sq defs)
+  -- the same; the formatted definition was computed from the raw one at construction (ds:1141-1143, 1014-1023)
+  | .subsetR sq rdefs rev perm p, ts =>
+    let fdefs := fmtSub p.fshape rev perm rdefs
+    let pts := composeSq (gather perm p.fshape) fdefs (keepAxes sq fdefs) ts
+    (((p.read (rawSub p.fshape rev (invPerm perm) pts)).flip rev).transpose perm (invPerm perm)).squeeze
+      (keepAxes sq fdefs)
   -- BandAggregateSegment.read_raw (ds:1616-1638): band `out_index` of the output is
   --   children[arange(bands)[ts[bd]][out_index]].read(ts without axis bd)
   | .bands bd cs, ts =>
@@ -317,9 +477,59 @@ def Blks.readOnto : Blks → List NSlice → Arr α → Arr α
     match overlaps ts arr with
     | none => r.readOnto ts out
     | some (csub, psub) => r.readOnto ts (out.paste (sliceBox psub) (c.read csub))
+  | .rcons arr rv c r, ts, out =>
+    match overlapsR ts arr rv with
+    | none => r.readOnto ts out
+    | some (csub, psub) => r.readOnto ts (out.paste (sliceBox psub) (c.read csub))
 end
 
 end Sem
+
+/-! ### the subscripts the code serves -/
+
+/-- `transform_formatted_slice` of the segment (through `_subscript_to_raw`, ds:1000-1011) does not raise: evaluated by the
+    constructor of a `SubsetSegment` on its definition -/
+def Seg.rawOK : Seg → List NSlice → Bool
+  | .cplxK _ _ _ bd _, ds => decide ((sliceAt ds bd).step = 1)
+  | .subset sq defs p, ds => p.rawOK (composeSq p.fshape defs (keepAxes sq defs) ds)
+  | _, _ => true
+
+mutual
+/-- **the supported set**: `read(ts)` / `write(.., subscript=ts)` returns normally (no ValueError) for the
+    normalised subscript `ts` -/
+def Seg.accepts : Seg → List NSlice → Bool
+  | .leaf _ _, _ => true
+  | .fleaf _ _, _ => true
+  | .orient rev perm p, ts => p.accepts (rawSub p.fshape rev (invPerm perm) ts)
+  | .cplx _ rev perm bd p, ts => p.accepts (rawSub p.fshape rev (invPerm perm) (insAt bd ⟨0, some 2, 1⟩ ts))
+  -- ff:718-722: a step other than 1 along the band dimension raises; the doubled raw subscript is then verified
+  --   against the raw shape by read_raw (a reversed band axis always fails there: `C01Seg.cplxK_reversed_refused`)
+  | .cplxK _ rev perm bd p, ts =>
+    decide ((sliceAt ts bd).step = 1) && allSlicesNormal p.fshape (rawSubK p.fshape rev (invPerm perm) bd ts) &&
+      p.accepts (rawSubK p.fshape rev (invPerm perm) bd ts)
+  | .lut1 rev perm p, ts => p.accepts (rawSub p.fshape rev (invPerm perm) ts)
+  | .lut2 _ rev perm p, ts => p.accepts (rawSub p.fshape rev (invPerm perm) ts)
+  | .subset sq defs p, ts => p.accepts (composeSq p.fshape defs (keepAxes sq defs) ts)
+  | .subsetR sq rdefs rev perm p, ts =>
+    p.accepts (rawSub p.fshape rev (invPerm perm)
+      (composeSq (gather perm p.fshape) (fmtSub p.fshape rev perm rdefs) (keepAxes sq (fmtSub p.fshape rev perm rdefs)) ts))
+  | .bands bd cs, ts => (sliceAt ts bd).indices.all (fun b => cs.acceptsNth b.toNat (delAt bd ts))
+  | .blocks _ cs, ts => cs.acceptsOnto ts
+def Segs.acceptsNth : Segs → Nat → List NSlice → Bool
+  | .nil, _, _ => true
+  | .cons c _, 0, ts => c.accepts ts
+  | .cons _ r, n + 1, ts => r.acceptsNth n ts
+def Blks.acceptsOnto : Blks → List NSlice → Bool
+  | .nil, _ => true
+  | .cons arr c r, ts =>
+    (match overlaps ts arr with
+     | none => true
+     | some (csub, _) => c.accepts csub) && r.acceptsOnto ts
+  | .rcons arr rv c r, ts =>
+    (match overlapsR ts arr rv with
+     | none => true
+     | some (csub, _) => c.accepts csub) && r.acceptsOnto ts
+end
 
 
 /-! ### writes (C07): the raw assignments a formatted chunk is routed to -/
@@ -327,6 +537,22 @@ end Sem
 /-- `data[(slice(0, n0), ..., out_index, ..., slice(0, nk))]`: band `k` of the chunk along axis `bd` (ds:1693-1701) -/
 def Arr.takeAx {α : Type} (bd : Nat) (k : Int) (a : Arr α) : Arr α :=
   ⟨delAt bd a.shape, fun idx => a.get (insAx bd k idx)⟩
+
+/-- `ComplexFormatFunction._reverse_functional_step` with the band axis collapsed (ff:854-889): a new axis of length 2
+    at `bd`; position 0 gets the first part of the sample, position 1 the second (`out[slice0]`, `out[slice1]`) -/
+def Arr.unpair {α : Type} [Parts α] (ord : COrd) (bd : Nat) (a : Arr α) : Arr α :=
+  ⟨insAt bd 2 a.shape, fun idx => Parts.part (ord.slot (decide (idx bd ≠ 0))) (a.get (dropAx bd idx))⟩
+
+/-- the index tuple with entry `bd` halved -/
+def halfAx (bd : Nat) (idx : Idx) : Idx := fun i => if i = bd then idx i / 2 else idx i
+
+/-- the shape with axis `bd` doubled -/
+def doubleAt (bd : Nat) (shape : List Nat) : List Nat :=
+  (List.range shape.length).map (fun i => if i = bd then 2 * dimAt shape i else dimAt shape i)
+
+/-- the same with the band dimension kept: axis `bd` doubles, even positions get the first part, odd the second -/
+def Arr.unpairK {α : Type} [Parts α] (ord : COrd) (bd : Nat) (a : Arr α) : Arr α :=
+  ⟨doubleAt bd a.shape, fun idx => Parts.part (ord.slot (decide (idx bd % 2 ≠ 0))) (a.get (halfAx bd idx))⟩
 
 /-- the per-axis loop of `BlockAggregateSegment.write_raw` (ds:1948-1971): overlap of the data slice with the block,
     then `_find_slice_overlap(slice(0, lim, 1), par_entry)` to address the chunk itself.
@@ -344,11 +570,26 @@ def overlapsW : List Nat → List NSlice → List (Int × Int) → Option (List 
         | some (cs, ds) => some (c :: cs, dsl :: ds)
   | _, _, _ => some ([], [])
 
+/-- the same for a block definition that runs backwards on the axes flagged in `rv` -/
+def overlapsWR : List Nat → List NSlice → List (Int × Int) → List Bool → Option (List NSlice × List NSlice)
+  | lim :: lims, t :: ts, b :: bs, r :: rs =>
+    match overlap t b.1 b.2 with
+    | none => none
+    | some (c, p) =>
+      match overlap ⟨0, some lim, 1⟩ p.start (p.stop.getD 0) with
+      | none => none
+      | some (_, dsl) =>
+        match overlapsWR lims ts bs rs with
+        | none => none
+        | some (cs, ds) => some ((if r then flipSlice (b.2 - b.1) c p else c) :: cs, dsl :: ds)
+  | _, _, _, _ => some ([], [])
+
 section Write
-variable {α : Type}
+variable {α : Type} [Parts α]
 
 mutual
-/-- **operation**: the list of `(leaf id, raw index, sample)` assignments `write(data, subscript=ts)` performs -/
+/-- **operation**: the list of `(leaf id, raw index, sample)` assignments `write(data, subscript=ts)` performs
+    (meaningful when `Seg.accepts t ts`) -/
 def Seg.write : Seg → List NSlice → Arr α → List (Nat × List Int × α)
   -- NumpyArraySegment.write_raw (ds:2131-2141): `self._underlying_array[subscript] = data` - numpy itself
   | .leaf id s, ts, d =>
@@ -359,12 +600,24 @@ def Seg.write : Seg → List NSlice → Arr α → List (Nat × List Int × α)
   --   (`inverse`, ff:295-326, 245-252), raw_subscript = transform_formatted_slice(ts), write_raw(raw_data, raw_subscript)
   | .orient rev perm p, ts, d =>
     p.write (rawSub p.fshape rev (invPerm perm) ts) ((d.transpose (invPerm perm) perm).flip rev)
-  -- complex formats are not modelled for writing (the inverse splits every sample into two stored ones)
-  | .cplx _ _ _ _ _, _, _ => []
+  -- the same with the inverse of the complex format function in front (`_reverse_functional_step`, ff:847-892)
+  | .cplx ord rev perm bd p, ts, d =>
+    p.write (rawSub p.fshape rev (invPerm perm) (insAt bd ⟨0, some 2, 1⟩ ts))
+      (((d.unpair ord bd).transpose (invPerm perm) perm).flip rev)
+  | .cplxK ord rev perm bd p, ts, d =>
+    p.write (rawSubK p.fshape rev (invPerm perm) bd ts) (((d.unpairK ord bd).transpose (invPerm perm) perm).flip rev)
+  -- SingleLUTFormatFunction.has_inverse = False: `write` raises (ds:697-700), nothing is stored
+  | .lut1 _ _ _, _, _ => []
+  | .lut2 _ _ _ _, _, _ => []
   -- SubsetSegment.write (ds:1374-1396): parent.write(reshape(data, parent_shape), subscript=parent_subscript)
   | .subset sq defs p, ts, d =>
     let pts := composeSq p.fshape defs (keepAxes sq defs) ts
     p.write pts (d.unsqueeze (keepAxes sq defs) (pts.map NSlice.count))
+  | .subsetR sq rdefs rev perm p, ts, d =>
+    let fdefs := fmtSub p.fshape rev perm rdefs
+    let pts := composeSq (gather perm p.fshape) fdefs (keepAxes sq fdefs) ts
+    p.write (rawSub p.fshape rev (invPerm perm) pts)
+      (((d.unsqueeze (keepAxes sq fdefs) (pts.map NSlice.count)).transpose (invPerm perm) perm).flip rev)
   -- BandAggregateSegment.write_raw (ds:1652-1703)
   | .bands bd cs, ts, d =>
     ((sliceAt ts bd).indices.zipIdx).flatMap
@@ -382,6 +635,10 @@ def Blks.writeOnto : Blks → List Nat → List NSlice → Arr α → List (Nat 
     (match overlapsW lims ts arr with
      | none => []
      | some (csub, dsub) => c.write csub (d.select dsub)) ++ r.writeOnto lims ts d
+  | .rcons arr rv c r, lims, ts, d =>
+    (match overlapsWR lims ts arr rv with
+     | none => []
+     | some (csub, dsub) => c.write csub (d.select dsub)) ++ r.writeOnto lims ts d
 end
 
 end Write
@@ -391,11 +648,6 @@ def idChunk (ts : List NSlice) : Arr (List Int) :=
   ⟨ts.map NSlice.count, fun idx => (List.range ts.length).map idx⟩
 
 /-! ### well-formedness (what the constructors of the Python classes check) -/
-
-def allSlicesNormal : List Nat → List NSlice → Bool
-  | [], [] => true
-  | n :: ns, t :: ts => decide (t.Normal n) && allSlicesNormal ns ts
-  | _, _ => false
 
 /-- arrangement entry: `0 ≤ b0 < b1 ≤ n` per axis (verify_subscript + step 1, ds:1833-1848) and the child shape
     equals the extents (ds:1850-1855) -/
@@ -415,7 +667,16 @@ def Seg.wf : Seg → Bool
   | .orient rev perm p => p.wf && isPerm perm p.fshape.length && rev.all (fun i => decide (i < p.fshape.length))
   | .cplx _ rev perm bd p => p.wf && isPerm perm p.fshape.length && rev.all (fun i => decide (i < p.fshape.length))
       && decide (bd < p.fshape.length) && decide (dimAt (gather perm p.fshape) bd = 2)
-  | .subset _ defs p => p.wf && allSlicesNormal p.fshape defs
+  -- validate_shapes (ff:644-668): the band axis has even length
+  | .cplxK _ rev perm bd p => p.wf && isPerm perm p.fshape.length && rev.all (fun i => decide (i < p.fshape.length))
+      && decide (bd < p.fshape.length) && decide (dimAt (gather perm p.fshape) bd % 2 = 0)
+  -- the forward step wants two-dimensional raw data (ff:1019-1020)
+  | .lut1 rev perm p => p.wf && isPerm perm p.fshape.length && rev.all (fun i => decide (i < p.fshape.length))
+  | .lut2 _ rev perm p => p.wf && isPerm perm p.fshape.length && rev.all (fun i => decide (i < p.fshape.length))
+  -- the constructor maps the definition to raw coordinates through the parent (ds:1145-1146), which may raise
+  | .subset _ defs p => p.wf && allSlicesNormal p.fshape defs && p.rawOK defs
+  | .subsetR _ rdefs rev perm p => p.wf && isPerm perm p.fshape.length && rev.all (fun i => decide (i < p.fshape.length))
+      && allSlicesNormal p.fshape rdefs
   | .bands bd cs => cs.wfAll cs.headShape && decide (bd ≤ cs.headShape.length) && decide (0 < cs.length)
   | .blocks s cs => cs.wfAll s
 def Segs.wfAll : Segs → List Nat → Bool
@@ -424,6 +685,8 @@ def Segs.wfAll : Segs → List Nat → Bool
 def Blks.wfAll : Blks → List Nat → Bool
   | .nil, _ => true
   | .cons arr c r, sh => c.wf && boxOK sh arr c.fshape && r.wfAll sh
+  -- at least one reversed axis (a definition without one is a `cons`)
+  | .rcons arr rv c r, sh => c.wf && boxOK sh arr c.fshape && decide (rv.length = sh.length) && rv.any id && r.wfAll sh
 end
 
 
@@ -437,16 +700,44 @@ def boxesDisjoint (a b : List (Int × Int)) : Bool :=
 def Blks.allDisjointFrom : Blks → List (Int × Int) → Bool
   | .nil, _ => true
   | .cons arr _ r, a => boxesDisjoint a arr && r.allDisjointFrom a
+  | .rcons arr _ _ r, a => boxesDisjoint a arr && r.allDisjointFrom a
 
 mutual
-/-- the tree can be written regularly: no read-only (file-read) storage, and every block aggregate is a tiling with
-    holes, i.e. its blocks are pairwise disjoint -/
+/-- the tree can be written regularly: no read-only (file-read) storage, no format function without inverse,
+    and every block aggregate is a tiling with holes, i.e. its blocks are pairwise disjoint -/
+def Seg.writable : Seg → Bool
+  | .leaf _ _ => true
+  | .fleaf _ _ => false
+  | .cplx _ _ _ _ p => p.writable
+  | .cplxK _ _ _ _ p => p.writable
+  | .lut1 _ _ _ => false
+  | .lut2 _ _ _ _ => false
+  | .orient _ _ p => p.writable
+  | .subset _ _ p => p.writable
+  | .subsetR _ _ _ _ p => p.writable
+  | .bands _ cs => cs.writable
+  | .blocks _ cs => cs.writable
+def Segs.writable : Segs → Bool
+  | .nil => true
+  | .cons c r => c.writable && r.writable
+def Blks.writable : Blks → Bool
+  | .nil => true
+  | .cons arr c r => c.writable && r.allDisjointFrom arr && r.writable
+  | .rcons arr _ c r => c.writable && r.allDisjointFrom arr && r.writable
+end
+
+mutual
+/-- `writable` and every pixel is one stored sample (no complex format function) -/
 def Seg.tiled : Seg → Bool
   | .leaf _ _ => true
   | .fleaf _ _ => false
   | .cplx _ _ _ _ _ => false
+  | .cplxK _ _ _ _ _ => false
+  | .lut1 _ _ _ => false
+  | .lut2 _ _ _ _ => false
   | .orient _ _ p => p.tiled
   | .subset _ _ p => p.tiled
+  | .subsetR _ _ _ _ p => p.tiled
   | .bands _ cs => cs.tiled
   | .blocks _ cs => cs.tiled
 def Segs.tiled : Segs → Bool
@@ -455,6 +746,30 @@ def Segs.tiled : Segs → Bool
 def Blks.tiled : Blks → Bool
   | .nil => true
   | .cons arr c r => c.tiled && r.allDisjointFrom arr && r.tiled
+  | .rcons arr _ c r => c.tiled && r.allDisjointFrom arr && r.tiled
+end
+
+mutual
+/-- no node of the tree ever refuses a normalised subscript: no kept-band complex format -/
+def Seg.total : Seg → Bool
+  | .leaf _ _ => true
+  | .fleaf _ _ => true
+  | .cplx _ _ _ _ p => p.total
+  | .cplxK _ _ _ _ _ => false
+  | .lut1 _ _ p => p.total
+  | .lut2 _ _ _ p => p.total
+  | .orient _ _ p => p.total
+  | .subset _ _ p => p.total
+  | .subsetR _ _ _ _ p => p.total
+  | .bands _ cs => cs.total
+  | .blocks _ cs => cs.total
+def Segs.total : Segs → Bool
+  | .nil => true
+  | .cons c r => c.total && r.total
+def Blks.total : Blks → Bool
+  | .nil => true
+  | .cons _ c r => c.total && r.total
+  | .rcons _ _ c r => c.total && r.total
 end
 
 /-- `ts` is a normalised subscript for `shape`: one normal slice per axis -/
@@ -469,9 +784,19 @@ inductive Src where
   | fill : Src
   | leaf (id : Nat) (idx : List Int) : Src
   | pair (re im : Src) : Src
+  | polar (mag ph : Src) : Src
+  | lut (c : Nat) (x : Src) : Src
 deriving DecidableEq, Repr, Inhabited
 
-instance : Pairing Src := ⟨Src.pair⟩
+instance : Pairing Src := ⟨Src.pair, Src.polar, Src.lut⟩
+
+/-- provenance of a written sample: chunk element `idx`, or part `k` of it -/
+inductive WSrc where
+  | elem (idx : List Int) : WSrc
+  | part (k : Nat) (x : WSrc) : WSrc
+deriving DecidableEq, Repr, Inhabited
+
+instance : Parts WSrc := ⟨WSrc.part⟩
 
 /-- row-major flat offset of a raw index -/
 def flatOff : List Nat → List Int → Int
@@ -485,7 +810,11 @@ def Seg.leaves : Seg → List (Nat × List Nat)
   | .fleaf id s => [(id, s)]
   | .orient _ _ p => p.leaves
   | .cplx _ _ _ _ p => p.leaves
+  | .cplxK _ _ _ _ p => p.leaves
+  | .lut1 _ _ p => p.leaves
+  | .lut2 _ _ _ p => p.leaves
   | .subset _ _ p => p.leaves
+  | .subsetR _ _ _ _ p => p.leaves
   | .bands _ cs => cs.leaves
   | .blocks _ cs => cs.leaves
 def Segs.leaves : Segs → List (Nat × List Nat)
@@ -494,9 +823,14 @@ def Segs.leaves : Segs → List (Nat × List Nat)
 def Blks.leaves : Blks → List (Nat × List Nat)
   | .nil => []
   | .cons _ c r => c.leaves ++ r.leaves
+  | .rcons _ _ c r => c.leaves ++ r.leaves
 end
 
 def Seg.fullSrc (t : Seg) : Arr Src := t.full Src.leaf Src.fill
 def Seg.readSrc (t : Seg) (ts : List NSlice) : Arr Src := t.read Src.leaf Src.fill ts
+
+/-- the chunk of written-sample provenances -/
+def idChunkW (ts : List NSlice) : Arr WSrc :=
+  ⟨ts.map NSlice.count, fun idx => WSrc.elem ((List.range ts.length).map idx)⟩
 
 end Sarpy.Spec
